@@ -316,6 +316,7 @@ fn run_inner(p: &Program) -> Result<Outcome, Outcome> {
         ("promise:aborted-awaited", "promise:aborted-awaited"),
         ("promise:aborted-resolved", "promise:aborted-resolved"),
         ("event:received", "event:received"),
+        ("event:order-checked", "event:order-checked"),
         ("chan:items-flowed", "item:received"),
         ("chan:item-order-checked>=2", "item:order-checked>=2"),
         ("chan:receiver-closed-polled-while-sending", "chan:receiver-closed-polled"),
